@@ -40,7 +40,7 @@ def rc4kSpec (key data : Bytes) : Bytes :=
   | _ => []
 
 def verify (s : Server) (tok : Bytes) : Verdict :=
-  let hasVersion := s.flags / 0x02000000 % 2 = 1
+  let hasVersion := s.flags &&& 0x02000000 ≠ 0
   let micOff := if hasVersion then 72 else 64
   let payloadOff := micOff + 16
   if tok.length < payloadOff then .reject "short" else
